@@ -70,6 +70,8 @@ def cases(tier: str, seed: int) -> list[dict]:
             out.append({"sc": "locate", "et": et, "mesh": "gmsh"})
         for et in gm.ET_2D:
             out.append({"sc": "embedded", "et": et})
+        for et in gm.ET_3D:
+            out.append({"sc": "reconstruct", "et": et})
         for et in ["TRI3", "TRI6", "QUAD4", "TETRA4", "HEXA8", "PRISM6"]:
             out.append({"sc": "projector", "et": et})
     for i, c in enumerate(out):
@@ -177,7 +179,7 @@ def outward_fraction(mesh, dim, per_group, face_class=None):
 
 def run_case(case: dict, ctx: Ctx) -> None:
     rng = np.random.default_rng([case["seed"], NUM, case["index"]])
-    {"motion": run_motion, "normals": run_normals, "embedded": run_embedded, "locate": run_locate, "projector": run_projector}[case["sc"]](case, ctx, rng)
+    {"reconstruct": run_reconstruct, "motion": run_motion, "normals": run_normals, "embedded": run_embedded, "locate": run_locate, "projector": run_projector}[case["sc"]](case, ctx, rng)
 
 
 # ------------------------------------------------------------------------------------------
@@ -298,6 +300,52 @@ def run_normals(case, ctx, rng):
                 _apply_motion(rng, mesh, "symmetry", dim)
             cls = "mirrored-twice-and-rotated"
     ctx.describe(f"normals/{et}", mesh.Ne >= 2, et=et, dim=dim, Ne=mesh.Ne, boundary_groups=[g.elemType.value for g in mesh.Get_list_groupElem(dim - 1)])
+
+
+def run_reconstruct(case, ctx, rng):
+    """Boundary reconstructed from the volume elements' face tables (MeshIO.Surface_reconstruction): the skin must
+    close the domain with outward normals as built and after a rigid motion; after a mirror it must still close and
+    carry |flux| = 3 V."""
+    from EasyFEA import MeshIO
+
+    et = case["et"]
+    key = f"C08/reconstruct/{et}"
+    ctx.default_key = key
+    with ctx.monitored("no-exception", key + "/raised"):
+        mesh, dim, measure, cen, info = make_mesh(rng, et)
+        with quiet():
+            vol_only = gm.rebuild(mesh, keep_dims=(3,))
+            vol_only.Translate(*rng.uniform(0.5, 1.5, 3))
+            skin = MeshIO.Surface_reconstruction(vol_only)
+    # analytic boundary area: two caps + lateral faces
+    X = mesh.coord
+    h = float(X[:, 2].max() - X[:, 2].min())
+    bsize = measure ** (2 / 3)
+    stage = "as-built"
+    for k in range(3):
+        with ctx.monitored("no-exception", key + "/raised"):
+            closure, flux, per_group = boundary_integrals(skin, 3)
+            n_out, n_in, n_int, unit_err, by_class = outward_fraction(skin, 3, per_group)
+            area = sum(float(np.asarray(wJ).sum()) for g, n, wJ, x in per_group)
+        ctx.check("reconstructed-closure", float(np.abs(closure).max() / bsize), 1e-9, key + f"/{stage}/closure")
+        if stage == "mirrored":
+            ctx.check("reconstructed-flux", abs(abs(flux) - 3 * measure) / (3 * measure), 1e-9, key + f"/{stage}/flux-magnitude")
+        else:
+            ctx.check("reconstructed-flux", abs(flux - 3 * measure) / (3 * measure), 1e-9, key + f"/{stage}/flux")
+            ctx.require("reconstructed-outward", n_in == 0 and n_out > 0, key + f"/{stage}/outward", outward=n_out, inward=n_in)
+        ctx.require("reconstructed-covers-boundary", n_int == 0 and n_out + n_in == sum(g.Ne for g in skin.Get_list_groupElem(2)), key + f"/{stage}/faces",
+                    interior=n_int)
+        if k == 0:
+            ctx.event("skin-area", 1)
+            with quiet():
+                _apply_motion(rng, skin, "rotate", 3)
+                _apply_motion(rng, skin, "translate", 3)
+            stage = "moved"
+        elif k == 1:
+            with quiet():
+                _apply_motion(rng, skin, "symmetry", 3)
+            stage = "mirrored"
+    ctx.describe(f"reconstruct/{et}", True, et=et, Ne=mesh.Ne, faces=[(g.elemType.value, g.Ne) for g in skin.Get_list_groupElem(2)])
 
 
 def run_embedded(case, ctx, rng):
